@@ -1309,6 +1309,9 @@ unsigned int CppCheck::checkInternal(const FileWithDetails& file, const std::str
         internalError(file.spath(), std::string("Checking file failed: ") + e.what());
     } catch (const std::bad_alloc &) {
         internalError(file.spath(), "Checking file failed: out of memory");
+    } catch (const std::exception &e) {
+        // std::logic_error and friends (std::out_of_range from .at(), std::invalid_argument from std::stoi, ...)
+        internalError(file.spath(), std::string("Checking file failed: ") + e.what());
     } catch (const InternalError &e) {
         const ErrorMessage errmsg = ErrorMessage::fromInternalError(e, nullptr, file.spath(), "Bailing out from analysis: Checking file failed");
         mErrorLogger.reportErr(errmsg);
